@@ -164,8 +164,9 @@ Example C07_expression_example :
                              K_COMMA; K_ID; K_LPAREN; K_INT_CONST_DEC; K_COMMA; K_LPAREN; K_ID; K_COMMA; K_ID; K_RPAREN; K_RPAREN].
 Proof. exact expression_example. Qed.
 
-(* STATEMENTS without braces over that expression language: expression statements, `;`, return / break / continue / goto,
-   if with and without else, while, do-while, for with every clause present or absent, nested in any way.  Parser side:
+(* STATEMENTS over that expression language: expression statements, `;`, return / break / continue / goto, if with and
+   without else, while, do-while, for with every clause present or absent, and brace-enclosed blocks of statements (the
+   scope stack that `{` and `}` push and pop at token delivery is threaded through StreamLib.Up), nested in any way.  Parser side:
    whenever p_pragmacomp_or_statement (the production behind every sub-statement position) finds the tokens [stoks rp x]
    of the generated text, it returns exactly x.  The only side conditions are C's own dangling-else rule: in swf the
    then-branch of an if WITH an else does not end in an if without one (CGenerator adds no braces), and an if without
@@ -185,10 +186,11 @@ Print Assumptions C07_generator_prints_statement.
 
 (* ... and that text, blanks and newlines removed, is the concatenation of the spellings of [stoks rp x] *)
 Theorem C07_statement_text_is_its_tokens : forall rp (x: st), sexprs (eok rp) x -> forall lv, despace2 (gst rp lv x) = spell (stoks rp x).
-Proof. intros rp x Hx lv. rewrite gst_vtxt. exact (gst_tokens rp (ssize x) x (le_n _) Hx lv). Qed.
+Proof. exact gst_tokens. Qed.
 Print Assumptions C07_statement_text_is_its_tokens.
 
-(* non-vacuity: a for loop over an if / else-if ladder with return, break and a do-while *)
+(* non-vacuity: a for loop whose body is a block with an if / else-if ladder (return, break), a do-while over a nested block
+   with an empty block inside, and a goto *)
 Example C07_statement_example :
-  swf ex_s /\ exists t, generate_stmt nat false 60 (embS nat ex_s) true Z0 = GOk (t, Z0) /\ despace2 t = spell (stoks false ex_s).
-Proof. split; [exact (proj1 statement_example)|]. eexists. split; [exact (proj2 statement_example)|vm_compute; reflexivity]. Qed.
+  swf ex_s /\ exists t, generate_stmt nat false 80 (embS nat ex_s) true Z0 = GOk (t, Z0) /\ despace2 t = spell (stoks false ex_s).
+Proof. destruct statement_example as [H [t [H1 [H2 _]]]]. split; [exact H|]. exists t. split; assumption. Qed.
